@@ -112,7 +112,7 @@ func H_C18_Account() {
 	vCover("end")
 }
 
-//verif:obligation C18.a.state.identity tier=quick bigblob=1 covers=end bounds=arbitrary-Identity(quick:two-slices-optional-fields-without-lists|lists-without-optional-fields;thorough:full-product;every-field-by-type,byte-strings-and-lists<=1(quick)/2(thorough),optional-fields-nil-or-set,non-negative-integers)
+//verif:obligation C18.a.state.identity tier=quick bigblob=1 covers=end bounds=arbitrary-Identity(two-slices-optional-fields-without-lists|lists-without-optional-fields;every-field-by-type,byte-strings-and-lists<=1(quick)/2(thorough),optional-fields-nil-or-set,non-negative-integers)
 func H_C18_Identity() {
 	var x Identity
 	vC18Slice()
@@ -144,14 +144,11 @@ func H_C18_ApprovedIdentity() {
 	vCover("end")
 }
 
-// Quick tier: the product of all optional fields with all lists is too large for this type; two slices of it are
-// explored instead - (every optional field and scalar, no lists / byte strings) and (every list and byte string,
-// no optional fields). The thorough tier explores the full product.
+// The product of all optional fields with all lists is too large for this type; two slices of it are explored
+// instead - (every optional field and scalar, no lists / byte strings) and (every list and byte string, no
+// optional fields); the thorough tier has longer byte strings in the second slice.
 func vC18Slice() {
 	vGenLean, vGenNoOptional = false, false
-	if vThorough() {
-		return
-	}
 	if vChoice("slice", 2) == 0 {
 		vGenLean = true
 	} else {
